@@ -21,6 +21,9 @@ THEOREMS = [
     "RedunModel.C22.hist_cons",
     "RedunModel.C22.hist_cons_repaired",
     "RedunModel.C22.hist_cons_proposed",
+    "RedunModel.C22.returned_op_leaves_nothing_pending",
+    "RedunModel.C22.retry_rollback_keeps_returned_rows",
+    "RedunModel.C22.pending_tags_lost_on_retry",
     "RedunModel.C22.known_retry_loses_argument_rows",
     "RedunModel.C22.known_nested_retry_drops_pending",
     "RedunModel.Db.recordCallNode_cons_any",
@@ -50,7 +53,9 @@ ASSUMPTIONS = [
     "prov=False children, every commit of its record_call_node as crash point / fault position, then EACH child edited "
     "on its own copy of the database; plus the `vstore` workload: backend with value_store_path and values above "
     "value_store_min_size, process death right AFTER each commit that made a Value row durable, then: recovery result, "
-    "every Value row readable (backend.get_value), one more run executes no task",
+    "every Value row readable (backend.get_value), one more run executes no task; plus the `tags` workload: task option "
+    "tags=, apply_tags value / job / execution tags and run(tags=...), one OperationalError at EVERY writing commit in "
+    "turn, then all rows incl. Tag / TagEdit (up to uuids) compared with the undisturbed run",
     "process death = everything not committed is lost; one process at a time per database",
     "transient failure = ONE OperationalError raised instead of a writing commit (quick tier) or before any statement "
     "(thorough tier), retried with db_retries_backoff = 0",
@@ -115,9 +120,25 @@ def corpus_program(small=False):
     return ctl_db.Program(3, [[(1, 0), (2, 1, 1)], [(2, 0)], []], [True, False, True], [(0, 1)], ns="gc22")
 
 
-def shape(d):
-    """content-addressed part of a dump + job/execution shape"""
+def tag_shape(d, I):
+    """Tag rows up to uuids: (entity type, key, value, current, entity if it is content-addressed, #parent edits)"""
+    nparents = {}
+    for p, c in d["tagedits"]:
+        nparents[c] = nparents.get(c, 0) + 1
+    out = []
+    for t, et, en, k, v, cur in d["tags"]:
+        etn = str(I.names[et])
+        ent = en if any(x in etn for x in ("Value", "Task", "CallNode")) else None
+        out.append((etn, str(I.names[k]), str(I.names[v]), cur, ent, nparents.get(t, 0)))
+    return sorted(out, key=repr)
+
+
+def shape(d, I=None):
+    """content-addressed part of a dump + job/execution shape (+ the Tag / TagEdit rows when `I` is given)"""
     out = {t: d[t] for t in CONTENT_TABLES}
+    if I is not None:
+        out["tags"] = tag_shape(d, I)
+        out["ntagedits"] = len(d["tagedits"])
     out["nodes"] = sorted(n[:4] for n in d["nodes"])
     out["jobs"] = sorted((j[1], j[4], j[5], j[6]) for j in d["jobs"])
     out["nexecs"] = len(d["execs"])
@@ -221,7 +242,7 @@ def crash_case(ctx, w: Workload, k: int, cases):
     cases.append(c)
 
 
-def fault_case(ctx, w: Workload, k: int, mode, cases):
+def fault_case(ctx, w: Workload, k: int, mode, cases, later=True):
     w.reset()
     prog = w.prog
     key = (repr(prog.describe()), "fault-" + mode, k)
@@ -247,12 +268,24 @@ def fault_case(ctx, w: Workload, k: int, mode, cases):
             ctx.violation(SIG["stale"][0], SIG["stale"][1], dict(label, fired=fired), expected=repr(exp)[:300],
                           actual=repr(res)[:300], kind="fault")
         d = ctl_db.dump_db(c.repos[0], c.I)
-        if shape(d) != shape(w.clean_dump):
-            a, b = shape(d), shape(w.clean_dump)
+        if shape(d, c.I) != shape(w.clean_dump, c.I):
+            a, b = shape(d, c.I), shape(w.clean_dump, c.I)
             diff = {t: (len(a[t]) if hasattr(a[t], "__len__") else a[t], len(b[t]) if hasattr(b[t], "__len__") else b[t])
                     for t in a if a[t] != b[t]}
-            ctx.violation(SIG["lost"][0], SIG["lost"][1], dict(label, fired=fired), expected="rows of the undisturbed run",
-                          actual=f"(rows here, rows undisturbed) per differing table: {diff}", kind="fault")
+            tag_tables = {t for t in diff if t in ("tags", "ntagedits")}
+            if tag_tables:
+                missing = [r for r in b["tags"] if r not in a["tags"]]
+                ctx.violation("C22-retry-loses-tags",
+                              "after one retried transient OperationalError the Tag / TagEdit rows differ from those of the "
+                              "undisturbed run (tags recorded by an operation that had already returned are lost or "
+                              "duplicated)", dict(label, fired=fired), expected="Tag rows of the undisturbed run",
+                              actual=f"missing here: {missing[:4]}; (rows here, rows undisturbed): "
+                                     f"{ {t: diff[t] for t in tag_tables} }", kind="fault")
+            if set(diff) - tag_tables:
+                ctx.violation(SIG["lost"][0], SIG["lost"][1], dict(label, fired=fired),
+                              expected="rows of the undisturbed run",
+                              actual=f"(rows here, rows undisturbed) per differing table: "
+                                     f"{ {t: diff[t] for t in diff if t not in tag_tables} }", kind="fault")
             outcomes.append("rows-differ")
     fkv = ctl_db.fk_violations(c.repos[0])
     if fkv:
@@ -260,7 +293,7 @@ def fault_case(ctx, w: Workload, k: int, mode, cases):
         ctx.violation(sig[0], sig[1], dict(label, where="after the retried run", foreign_key_check=repr(fkv[:4])),
                       expected="[]", actual=repr(fkv[:4]), kind="fault")
     # later runs
-    for step, r in w.later_steps(c):
+    for step, r in (w.later_steps(c) if later else ()):
         res2, _, _ = c.run(r)
         exp2 = prog.expected_main()
         outcomes.append(res2 if isinstance(res2, str) else ("ok" if res2 == exp2 else "WRONG"))
@@ -389,6 +422,13 @@ def run(ctx):
             for k in range(rng_np[0], rng_np[1] + 1):
                 ctl_db.guarded(ctx, f"noprov:fault@{k}", lambda k=k: fault_case(ctx, wnp, k, "commit", cases))
         ctl_db.guarded(ctx, "vstore", lambda: value_store_cases(ctx, env, flags, cases))
+        # jobs that carry tags (task option tags=, apply_tags value / job / execution tags, run(tags=...)): one
+        # transient error at EVERY writing commit in turn, then ALL rows incl. Tag / TagEdit against the baseline
+        wtag = ctl_db.guarded(ctx, "tags", lambda: Workload(ctx, env, flags, ctl_db.TagProgram(ns="gc22tag"), "tags"))
+        if wtag is not None:
+            cases.append(wtag.clean)
+            for k in range(1, wtag.ncommits + 1):
+                ctl_db.guarded(ctx, f"tags:fault@{k}", lambda k=k: fault_case(ctx, wtag, k, "commit", cases, later=False))
         for wi, w in enumerate(workloads):
             cases.append(w.clean)
             full = (wi == 0) or thorough
